@@ -242,10 +242,16 @@ impl CompactionManifest {
                         self.level + 1,
                         Some(&new_compaction_range.start)..Some(&new_compaction_range.end),
                     );
+                #[cfg(raindb_verif)]
+                let expanded1_len_before = expanded1_files.len();
                 CompactionManifest::add_boundary_inputs(
                     &input_version.write().element.files[self.level + 1],
                     &mut expanded1_files,
                 );
+                #[cfg(raindb_verif)]
+                if expanded1_files.len() > expanded1_len_before {
+                    raindb_verif_rt::probe("compaction_expanded_parent_boundary_file_added");
+                }
 
                 if expanded1_files.len() == self.input_files[1].len() {
                     log::info!(
@@ -265,6 +271,8 @@ impl CompactionManifest {
                         expanded1_bytes = inputs1_files_size
                     );
 
+                    #[cfg(raindb_verif)]
+                    raindb_verif_rt::probe("compaction_inputs_expanded");
                     self.input_files[0] = expanded0_compaction_files;
                     self.input_files[1] = expanded1_files;
 
@@ -538,6 +546,8 @@ impl CompactionManifest {
             }
 
             let smallest_boundary_file = maybe_smallest_boundary_file.unwrap();
+            #[cfg(raindb_verif)]
+            raindb_verif_rt::probe("compaction_boundary_file_added");
             compaction_files.push(Arc::clone(&smallest_boundary_file));
             // Use the reference stored that was just pushed to tie the reference to the lifetime
             // of `compaction_files`
